@@ -515,6 +515,9 @@ func Run(r *core.Run) {
 			SD   any    `json:"suffixData"`
 			D    any    `json:"delta"`
 		}{"create", v["suffixData"], v["delta"]})
+		// the initial state as other Sidetree implementations write it: without the optional type member (same suffix)
+		noType := jcs.MustCanonGo(M{"suffixData": v["suffixData"], "delta": v["delta"]})
+		tampered = append(tampered, "did:ion:"+suffix+":"+enc(noType))
 		v2 := M{"type": "create", "suffixData": v["suffixData"], "delta": v["delta"], "extra": 1}
 		extra := jcs.MustCanonGo(v2)
 		tampered = append(tampered, "did:ion:"+suffix+":"+enc(pretty), "did:ion:"+suffix+":"+enc(goOrder), "did:ion:"+suffix+":"+state+"=", "did:ion:"+suffix+":"+state+"==",
@@ -539,8 +542,15 @@ func Run(r *core.Run) {
 				return &core.Fail{Key: "refused-well-formed", What: fmt.Sprintf("well-formed long-form DID refused (%v): %s", e1, trunc(s)), Detail: det}
 			}
 			if resolves {
-				if _, e2 := vdr.Read(s); e2 != nil {
+				rd, e2 := vdr.Read(s)
+				if e2 != nil {
 					return &core.Fail{Key: "vdr-handler-disagree", What: "handler resolves but VDR.Read fails: " + e2.Error(), Detail: det}
+				}
+				// whatever resolves, resolves to a document whose id is the DID that was asked for (exact-form DIDs; other accepted
+				// forms are observed in the evidence, not judged)
+				hr, _ := handler.ResolveDocument(s)
+				if exact && (rd.DIDDocument.ID != s || hr == nil || hr.Document.ID() != s) {
+					return &core.Fail{Key: "resolved-under-another-id", What: fmt.Sprintf("the DID %s resolves to a document whose id is %s", trunc(s), trunc(rd.DIDDocument.ID)), Detail: det}
 				}
 			}
 			return nil
